@@ -101,6 +101,9 @@ SizeBoundRestored == AllDone => Len(cache) <= (IF MaxSize = 0 THEN 0 ELSE MaxSiz
 NoDuplicateKeys == \A i, j \in 1..Len(cache) : i # j => cache[i].key # cache[j].key
 Terminates == <>AllDone
 
+\* larger instances are explored without the history variable (it only records the path)
+NoHistory == <<cache, pc, ci, res, rets, err>>
+
 \* spec -> code: every complete schedule is printed and replayed on the real cache
 Export == AllDone => PrintT(<<"SCHED", sched>>)
 =============================================================================
